@@ -427,6 +427,7 @@ def run(chk):
     nprog = 1 if tier == "quick" else 5
     nscen = 45 if tier == "quick" else 60
     gens = []
+    isolated = []
     for k in range(nprog):
         pkg = "c03gen%d" % k
         d = os.path.join(work, pkg)
@@ -445,11 +446,13 @@ def run(chk):
         open(os.path.join(d, "main.go"), "w").write(src)
         open(os.path.join(d, "config.yaml"), "w").write(CONFIG % {"pkg": pkg})
         gens.append((d, scen))
+        isolated.append(d)
 
-    def analyse(dirs, tag, taint):
+    def analyse(dirs, tag, taint, both=True):
         dump = os.path.join(work, tag + ".dump")
         env = dict(vlib.GOENV, GOMAXPROCS=str(min(8, vlib.NCPU)))
-        rc, out = vlib.sh([dumpexe, "-both"] + (["-taint"] if taint else []) + ["-o", dump] + dirs, timeout=3000, env=env)
+        rc, out = vlib.sh([dumpexe] + (["-both"] if both else []) + (["-taint"] if taint else []) + ["-o", dump] + dirs,
+                          timeout=3000, env=env)
         if rc not in (0, 2, 3) or not os.path.exists(dump):
             raise vlib.BuildError("c03dump failed on %s" % tag, out)
         rc, mout, merr = vlib.sh2([model], inp=open(dump, errors="replace").read(), timeout=3000)
@@ -538,11 +541,16 @@ def run(chk):
     # the repository corpus is analysed concurrently with the generated programs
     corpus = [os.path.join(vlib.REPO, p) for p in (CORPUS_QUICK if tier == "quick" else CORPUS_THOROUGH)]
     corpus = [p for p in corpus if os.path.isdir(p)]
-    pool = concurrent.futures.ThreadPoolExecutor(max_workers=2)
+    pool = concurrent.futures.ThreadPoolExecutor(max_workers=3)
     corpus_job = pool.submit(analyse, corpus, "corpus", False) if corpus else None
+    # programs on which the pinned analysis panics: one mode is enough in the quick tier
+    iso_job = pool.submit(analyse, isolated, "iso", False, tier != "quick") if isolated else None
 
     # ---- 1. generated programs: tie, certificate, spec, native ground truth, forward/backward agreement
-    isecs, msecs = analyse([d for d, _ in gens], "gen", taint=True)
+    isecs, msecs = analyse([d for d, _ in gens if d not in isolated], "gen", taint=True)
+    if iso_job is not None:
+        i2, m2 = iso_job.result()
+        isecs, msecs = isecs + i2, msecs + m2
     bydir = collections.defaultdict(dict)
     for s, m in zip(isecs, msecs):
         bydir[s["dir"]][s["mode"]] = (s, m)
@@ -559,6 +567,8 @@ def run(chk):
         taint_pairs = bydir[d].get("taint", ({"F": set()}, None))[0]["F"]
         for mode in ("eager", "ondemand"):
             if mode not in bydir[d]:
+                if d in isolated and mode == "ondemand":
+                    continue
                 raise vlib.BuildError("no %s section for %s" % (mode, d), "")
             isec, msec = bydir[d][mode]
             if any("FAIL" in x or "HARNESS" in x for x in isec["X"]):
